@@ -17959,6 +17959,61 @@ pub(crate) fn hold_time_since(send_timestamp: Option<Duration>) -> Option<u32> {
 
 #[cfg(feature = "verif_hooks")]
 impl<SP: SignerProvider> FundedChannel<SP> {
+	/// Read-only (C05): everything the guard chain of `revoke_and_ack` reads before it looks at the message, as
+	/// `<counterparty_next_commitment_transaction_number> <bits> <inbound states> <outbound states>`; bits in order:
+	/// quiescent, ChannelReady, peer_disconnected, both_sides_shutdown, last_sent_closing_fee.is_some,
+	/// local_shutdown_sent, remote_shutdown_sent, monitor_update_in_progress, local_stfu_sent,
+	/// remote_stfu_sent, expecting_peer_commitment_signed, pending_update_fee.is_some, awaiting_remote_revoke,
+	/// counterparty_current_commitment_point.is_some. HTLC states comma separated (`-` = none).
+	pub(crate) fn verif_raa_guard_inputs(&self) -> String {
+		let c = &self.context;
+		let st = &c.channel_state;
+		let bits = [
+			st.is_quiescent(),
+			matches!(c.channel_state, ChannelState::ChannelReady(_)),
+			st.is_peer_disconnected(),
+			st.is_both_sides_shutdown(),
+			c.last_sent_closing_fee.is_some(),
+			st.is_local_shutdown_sent(),
+			st.is_remote_shutdown_sent(),
+			st.is_monitor_update_in_progress(),
+			st.is_local_stfu_sent(),
+			st.is_remote_stfu_sent(),
+			c.expecting_peer_commitment_signed,
+			c.pending_update_fee.is_some(),
+			st.is_awaiting_remote_revoke(),
+			c.counterparty_current_commitment_point.is_some(),
+		];
+		let bits: String = bits.iter().map(|b| if *b { '1' } else { '0' }).collect();
+		let inb: Vec<&'static str> = c
+			.pending_inbound_htlcs
+			.iter()
+			.map(|h| match &h.state {
+				InboundHTLCState::RemoteAnnounced(_) => "RemoteAnnounced",
+				InboundHTLCState::AwaitingRemoteRevokeToAnnounce(_) => "AwaitingRemoteRevokeToAnnounce",
+				InboundHTLCState::AwaitingAnnouncedRemoteRevoke(_) => "AwaitingAnnouncedRemoteRevoke",
+				InboundHTLCState::Committed { .. } => "Committed",
+				InboundHTLCState::LocalRemoved(_) => "LocalRemoved",
+			})
+			.collect();
+		let outb: Vec<&'static str> = c
+			.pending_outbound_htlcs
+			.iter()
+			.map(|h| match &h.state {
+				OutboundHTLCState::LocalAnnounced(_) => "LocalAnnounced",
+				OutboundHTLCState::Committed => "Committed",
+				OutboundHTLCState::RemoteRemoved(_) => "RemoteRemoved",
+				OutboundHTLCState::AwaitingRemoteRevokeToRemove(_) => "AwaitingRemoteRevokeToRemove",
+				OutboundHTLCState::AwaitingRemovedRemoteRevoke(_) => "AwaitingRemovedRemoteRevoke",
+			})
+			.collect();
+		let j = |v: Vec<&'static str>| if v.is_empty() { "-".to_string() } else { v.join(",") };
+		format!("{} {} {} {}", c.counterparty_next_commitment_transaction_number, bits, j(inb), j(outb))
+	}
+}
+
+#[cfg(feature = "verif_hooks")]
+impl<SP: SignerProvider> FundedChannel<SP> {
 	/// Read-only dump of the monitor-update gate of this channel (C09): the `MonitorUpdateInProgress` flag, the
 	/// `monitor_pending_*` flags and held-vector lengths, `latest_monitor_update_id`, the blocked updates
 	/// (`id:kind+kind`), the peer-disconnected flag and the resend order.
